@@ -96,7 +96,7 @@ func runC15(a *A) {
 func isTableIDOf(v ssa.Value, r *Roles) bool {
 	c, ok := v.(*ssa.Call)
 	return ok && c.Common().IsInvoke() && c.Common().Method.Name() == "TableID" && c.Common().Value == r.StrippedEv &&
-		len(c.Common().Args) == 1 && c.Common().Args[0] == r.FormatPhi
+		len(c.Common().Args) == 1 && r.isFormat(c.Common().Args[0])
 }
 
 func c15R1R2(a *A, r *Roles, ar *Arms) {
@@ -111,7 +111,7 @@ func c15R1R2(a *A, r *Roles, ar *Arms) {
 	if !a.need(tmCall != nil, "C15-R1", "TableMap() call in the table-map arm") {
 		return
 	}
-	a.check(tmCall.Common().Value == r.StrippedEv && tmCall.Common().Args[0] == r.FormatPhi, "C15-R1", "tablemap-call@parser", w.posOf(tmCall), "TableMap(format) on the stripped event", "TableMap is not called on the stripped current event with the current format")
+	a.check(tmCall.Common().Value == r.StrippedEv && r.isFormat(tmCall.Common().Args[0]), "C15-R1", "tablemap-call@parser", w.posOf(tmCall), "TableMap(format) on the stripped event", "TableMap is not called on the stripped current event with the current format")
 	var tm ssa.Value
 	for _, ref := range *tmCall.Referrers() {
 		if ex, ok := ref.(*ssa.Extract); ok && ex.Index == 0 {
@@ -405,7 +405,7 @@ func c15R3(a *A, r *Roles, ar *Arms) {
 			}
 		}
 		// Rows(format, entry.tableMap) on the stripped event
-		okRows := rowsCall.Common().Value == r.StrippedEv && len(rowsCall.Common().Args) == 2 && rowsCall.Common().Args[0] == r.FormatPhi && fieldOfValue(rowsCall.Common().Args[1], entry) == "tableMap"
+		okRows := rowsCall.Common().Value == r.StrippedEv && len(rowsCall.Common().Args) == 2 && r.isFormat(rowsCall.Common().Args[0]) && fieldOfValue(rowsCall.Common().Args[1], entry) == "tableMap"
 		// conversion(entry, &rows, ts)
 		okConv := resolve(appendCall.Common().Args[0]) == entry
 		var rowsVal ssa.Value
